@@ -57,3 +57,34 @@ class Server:
     def is_transport_item(self, r):
         P = self.P
         return P.is_call(r, 'Stream::poll_next') and 'Fuse<' in (P.call_term(P.unbound(r)).get('self_ty') or '')
+
+
+def guard_always_disarmed(ctx, tag, S):
+    """After the Abortable in execute completed (either way), every path to the return clears the guard flag: a finished
+    execution never reports its id for clean-up (which could un-track a later request reusing the id)."""
+    from engine import cfg
+    from engine.asyncs import awaits
+    F, P, R = ctx.F, ctx.P, ctx.run
+    flag = F.field_of_type('server::ResponseGuard', lambda t: t == 'bool')
+    ex = S.execute
+    done = False
+    for f in F.with_descendants(ex):
+        ab = [(bb, t) for bb, t in f.calls() if callee_is(t, 'Abortable::new')]
+        if len(ab) != 1:
+            continue
+        a = None
+        for aw in awaits(P, f):
+            if any(P.unbound(r) == ('call', f.id, ab[0][0]) for r, _ in aw['roots']):
+                a = aw
+        dis = []
+        for i, j, s in f.stmts():
+            fs = [e[2] for e in s['pl']['p'] if e[0] == 'f']
+            if fs and fs[-1] == flag and s['rv']['k'] == 'use' and s['rv']['op']['k'] == 'const' and 'false' in s['rv']['op']['v']:
+                dis.append(i)
+        ok = a is not None and a['ready_bb'] is not None and bool(dis) and cfg.all_paths_pass(f, a['ready_bb'], cfg.exits(f), set(dis))
+        R.ob(tag, ('InFlightRequest::execute', 'guard disarmed on every path once the Abortable finished'), ok,
+             'whether the handler completed or was aborted, the finished execution clears its guard: it never queues its id for clean-up afterwards (a stale clean-up could un-track a request that reuses the id)',
+             [f.loc(ab[0][1])])
+        done = True
+    if not done:
+        R.ob(tag, ('InFlightRequest::execute', 'guard disarmed on every path once the Abortable finished'), False, 'execute wraps its work in an Abortable', [ex.loc(ex.d)])
